@@ -265,10 +265,15 @@ impl<'a, SE: brush_core::ShellExtensions> Highlighter<'a, SE> {
             }
             brush_parser::word::WordPiece::BackquotedCommandSubstitution(command) => {
                 self.set_next_missing_kind(HighlightKind::CommandSubstitution);
-                self.highlight_program(
-                    command.as_str(),
-                    piece.start + 1, /* opening backtick */
-                );
+
+                // Highlight the raw text between the backquotes, not `command`: the parser has
+                // removed the backslash of `\`` and `\\` from `command`, so offsets into it
+                // no longer map onto the line; offsets into the raw slice do.
+                let input_line = self.input_line;
+                let raw_command = input_line
+                    .get(piece.start + 1..piece.end.saturating_sub(1))
+                    .unwrap_or(command.as_str());
+                self.highlight_program(raw_command, piece.start + 1 /* opening backtick */);
                 self.set_next_missing_kind(HighlightKind::CommandSubstitution);
             }
             brush_parser::word::WordPiece::CommandSubstitution(command) => {
